@@ -249,6 +249,8 @@ type vfGen struct {
 	multiLine bool // forked decorations may also be multi-line block comments (content-bounded)
 	depth    int  // children below this depth are minimal leaves
 	level    int  // 0 while building the top node
+	exprPath string // package path carried by every leaf expression identifier ("" = none)
+	pathField string // "" = every expression leaf carries exprPath; "T.F" = only leaves of that field
 	n        int
 }
 
@@ -338,7 +340,21 @@ func (g *vfGen) leaf(f func() Q.Node) Q.Node {
 	return n
 }
 
-func (g *vfGen) leafExpr() Q.Expr { return g.ident() }
+func (g *vfGen) leafExpr() Q.Expr {
+	id := g.ident()
+	if g.pathField == "" {
+		id.Path = g.exprPath
+	}
+	return id
+}
+
+func (g *vfGen) leafExprAt(typ, field string) Q.Expr {
+	id := g.ident()
+	if g.pathField == "" || g.pathField == typ+"."+field {
+		id.Path = g.exprPath
+	}
+	return id
+}
 func (g *vfGen) leafStmt() Q.Stmt { return &Q.ExprStmt{X: g.ident()} }
 func (g *vfGen) leafDecl() Q.Decl {
 	return &Q.GenDecl{Tok: token.VAR, Specs: []Q.Spec{&Q.ValueSpec{Names: []*Q.Ident{g.ident()}, Type: g.ident()}}}
@@ -370,7 +386,7 @@ func (g *vfGen) leafSpec() Q.Spec { return &Q.ValueSpec{Names: []*Q.Ident{g.iden
 		w("%q, ", n)
 	}
 	w("}\n\n")
-	w("type vfNodeInfoT struct {\n\tPoints   []string\n\tOptional []string // optional child fields (documented \"or nil\")\n\tChildren []string // node-valued fields (single)\n\tLists    []string // list-valued fields\n\tIface    string\n}\n\n")
+	w("type vfNodeInfoT struct {\n\tExprFields []string // fields holding an Expr or a list of Expr\n\tPoints   []string\n\tOptional []string // optional child fields (documented \"or nil\")\n\tChildren []string // node-valued fields (single)\n\tLists    []string // list-valued fields\n\tIface    string\n}\n\n")
 	w("var vfNodeInfo = map[string]vfNodeInfoT{\n")
 	for _, t := range types {
 		w("\t%q: {Points: []string{", t.Name)
@@ -392,6 +408,12 @@ func (g *vfGen) leafSpec() Q.Spec { return &Q.ValueSpec{Names: []*Q.Ident{g.iden
 		w("}, Lists: []string{")
 		for _, f := range t.Fields {
 			if f.Kind == "list" {
+				w("%q, ", f.Name)
+			}
+		}
+		w("}, ExprFields: []string{")
+		for _, f := range t.Fields {
+			if (f.Kind == "iface" || f.Kind == "list") && f.Elem == "Expr" {
 				w("%q, ", f.Name)
 			}
 		}
@@ -419,7 +441,7 @@ func (g *vfGen) leafSpec() Q.Spec { return &Q.ValueSpec{Names: []*Q.Ident{g.iden
 			case "ptr":
 				w("\tif g.present(%q, %q, %v) {\n\t\tn.%s = g.child(%q).(*%s%s)\n\t}\n", t.Name, f.Name, f.Optional, f.Name, f.Elem, q, f.Elem)
 			case "iface":
-				leaf := map[string]string{"Expr": "g.leafExpr()", "Stmt": "g.leafStmt()", "Decl": "g.leafDecl()", "Spec": "g.leafSpec()", "Node": "g.leafExpr()"}[f.Elem]
+				leaf := map[string]string{"Expr": fmt.Sprintf("g.leafExprAt(%q, %q)", t.Name, f.Name), "Stmt": "g.leafStmt()", "Decl": "g.leafDecl()", "Spec": "g.leafSpec()", "Node": "g.leafExpr()"}[f.Elem]
 				w("\tif g.present(%q, %q, %v) {\n\t\tn.%s = %s\n\t}\n", t.Name, f.Name, f.Optional, f.Name, leaf)
 			case "list":
 				et := f.Elem
@@ -428,7 +450,7 @@ func (g *vfGen) leafSpec() Q.Spec { return &Q.ValueSpec{Names: []*Q.Ident{g.iden
 					mk = fmt.Sprintf("g.child(%q).(*%s%s)", et[1:], q, et[1:])
 					et = "*" + q + et[1:]
 				} else {
-					mk = map[string]string{"Expr": "g.leafExpr()", "Stmt": "g.leafStmt()", "Decl": "g.leafDecl()", "Spec": "g.leafSpec()"}[et]
+					mk = map[string]string{"Expr": fmt.Sprintf("g.leafExprAt(%q, %q)", t.Name, f.Name), "Stmt": "g.leafStmt()", "Decl": "g.leafDecl()", "Spec": "g.leafSpec()"}[et]
 					et = q + et
 				}
 				w("\tif g.listLen > 0 {\n\t\tn.%s = make([]%s, 0, g.listLen+g.spare)\n\t\tfor i := 0; i < g.listLen; i++ {\n\t\t\tn.%s = append(n.%s, %s)\n\t\t}\n\t}\n", f.Name, et, f.Name, f.Name, mk)
